@@ -1,4 +1,5 @@
 from checks.common import Build, Job
+from checks import cross
 
 PROP = "C01"
 FLAVORS = ["memb", "mb", "qsbr", "bp"]
@@ -6,6 +7,7 @@ BUILDS = [Build("gp_" + f, "harness/c01_gp.c", flavor=f) for f in FLAVORS]
 # flavor configurations: (build, env) - memb and bp with sys_membarrier available / unavailable
 CONFIGS = [("gp_memb", {"VRT_MEMBARRIER": 2}), ("gp_memb", {"VRT_MEMBARRIER": 0}), ("gp_mb", {}),
            ("gp_qsbr", {}), ("gp_bp", {"VRT_MEMBARRIER": 2}), ("gp_bp", {"VRT_MEMBARRIER": 0})]
+BUILDS = BUILDS + cross.fork_builds(("bp",))   # cross-property core jobs (checks/cross.py)
 RULE = ("every schedule within the preemption / x86-TSO store-delay budget of each reader/updater scenario is executed on the "
         "real flavor code (6 flavor configurations, spin bounds 1 and 2); oracles: litmus (post-GP store seen implies pre-GP "
         "store seen), real-time interval (no synchronize_rcu returns inside a section that began before its call), "
@@ -67,6 +69,8 @@ def jobs(tier):
     for b in ("gp_memb", "gp_bp"):
         J.append(Job(b, "basic", "2,1,0,0", p1, {"VRT_MEMBARRIER": 1}))
         J.append(Job(b, "nested", "2,1,0,0", p1, {"VRT_MEMBARRIER": 1}))
+    # the components this property's guarantee is built on, on the real code (checks/cross.py)
+    J += cross.fork_core(tier, ("bp",))
     return J
 
 
